@@ -247,6 +247,20 @@ J gen_hostile_cli(uint64_t seed, const J &ov)
 		}
 		ops.push(op);
 	}
+	if (focus == "spoof" && !spoof_raw && r.chance(0.4)) {
+		// aimed guesses: well-formed data answers (complete one-fragment packets) under the DNS id one step before the client's first
+		// query - the start value of its id sequence, which never went out - during the first tunnel queries
+		int na = (int)r.range(1, 4);
+		for (int i = 0; i < na; i++) {
+			J op = J::obj(); op.set("ref", "T0"); op.set("t", (long long)((0.002 + r.uniform() * (r.chance(0.5) ? 0.2 : 2.0)) * 1e6)); op.set("aim", "before_first");
+			op.set("op", "dgram"); op.set("from", "atk0"); op.set("from_ip", "10.9.2.1"); op.set("to", "c0"); op.set("dport", "auto"); op.set("spoof_ip", "10.9.0.1"); op.set("sport", 53);
+			Bytes x = r.bytes((size_t)r.range(28, 200)); x[0] = 0; x[1] = 0; x[2] = 8; x[3] = 0; x[4] = 0x45;
+			Bytes pl = {(uint8_t)((r.range(0, 7) << 5) | 1), (uint8_t)r.range(0, 255)}; Bytes z = z_compress(x); pl.insert(pl.end(), z.begin(), z.end());
+			std::string qt = cl.a[0].gets("qtype"); uint16_t t = qt == "TXT" ? QT_TXT : qt == "PRIVATE" ? QT_PRIVATE : QT_NULL;
+			op.set("hex", hexs(build_answer(0, std::string("p") + "abcde." + dom, t, pl, 'R')));
+			ops.push(op);
+		}
+	}
 	uint64_t ser = seed % 1000 * 100000;
 	std::string junk = focus == "spoof" ? (r.chance(0.15) ? "idle" : r.chance(0.18) ? "handshake" : "") : "";
 	if (!junk.empty()) {
